@@ -34,6 +34,11 @@ def gen_cases(ck):
                       "scale": float(10.0 ** ck.rng.uniform(-2, 2)), "shift": [float(ck.rng.normal() * 3), float(ck.rng.normal() * 3)],
                       "p_rev": float(ck.rng.choice([0.0, 0.5])), "shifts": True, "relabel": bool(ck.rng.integers(2)),
                       "fit": ["dlite", "taubinSVD"][int(ck.rng.integers(2))], "ignore_four": [None, False, True][int(ck.rng.integers(3))]})
+    for i in range(6 if ck.tier == "quick" else 40):
+        cases.append({"type": "tissue", "seed": int(ck.rng.integers(1 << 30)), "tissue": ["random", "jitter"][i % 2], "sites": int(ck.rng.integers(14, 30)),
+                      "subset": None, "mobius": True, "strength": float(ck.rng.uniform(1.0, 2.5)), "kmin": 1, "kmax": [1, 3, 8][i % 3],
+                      "param_mode": "uniform", "angle": 0.0, "scale": float(10.0 ** ck.rng.uniform(-1, 1)), "shift": [0.0, 0.0],
+                      "p_rev": 0.5, "shifts": True, "relabel": False, "fit": ["dlite", "taubinSVD"][i % 2], "ignore_four": None, "axis_chord": True})
     lat = [(0, 0, 0.0, 1.0), (0, 0, math.pi / 2, 0.5), (2, 2, 0.0, 2.0), (1, 4, 0.0, 4.0)]
     k = 0
     for tissue in ("brick", "square"):
@@ -63,10 +68,52 @@ def adjust_near_axis(sc_case):
     return c
 
 
+def axis_chord(case):
+    """a curved interface whose first chord at a junction is EXACTLY parallel to a coordinate axis (the sign rule of the code then
+    sees a zero component) while the circle tangent is not: the tissue is rotated so that the chord is axis-parallel up to
+    rounding, then the first interior point is moved by that rounding error; of the four such poses the one is taken in which
+    the tangent component along the zeroed axis is positive (in the others finding D2 applies)"""
+    probe = statics.build_static(dict(case, angle=0.0))
+    if probe is None:
+        return None
+    rng = np.random.default_rng(case["seed"] + 23)
+    cand = [r for r, ids in probe.bm.ridge_points.items() if len(ids) >= 3 and len(probe.topo.ridges[r]) == 2]
+    if not cand:
+        return None
+    cand.sort(key=lambda r: tuple(sorted(r)))
+    r = cand[int(rng.integers(len(cand)))]
+    a, b = sorted(r)
+    if rng.integers(2):
+        a, b = b, a
+    def chord(sc):
+        ids = sc.bm.ridge_points[r]
+        ids = ids if ids[0] == sc.bm.vid_of_junction[a] else ids[::-1]
+        p0, p1 = sc.bm.vertices[ids[0]], sc.bm.vertices[ids[1]]
+        return p0, p1, len(ids)
+    p0, p1, n = chord(probe)
+    th = math.atan2(p1.y - p0.y, p1.x - p0.x)
+    for k in range(4):
+        c = dict(case, angle=float(-th + k * math.pi / 2))
+        sc = statics.build_static(c)
+        if sc is None:
+            continue
+        p0, p1, n = chord(sc)
+        dx, dy = p1.x - p0.x, p1.y - p0.y
+        t = statics.true_direction(sc, a, b, n)
+        L = math.hypot(dx, dy)
+        if abs(dy) < 1e-9 * L and t.imag > 1e-3:
+            p1.y = p0.y
+            return sc
+        if abs(dx) < 1e-9 * L and t.real > 1e-3:
+            p1.x = p0.x
+            return sc
+    return None
+
+
 def run_case(ck, case, reqs, pending):
     if case.get("near_axis"):
         case = adjust_near_axis(case)
-    sc = statics.build_static(case)
+    sc = axis_chord(case) if case.get("axis_chord") else statics.build_static(case)
     if sc is None:
         ck.count("rejected_tissue")
         return
